@@ -167,6 +167,53 @@ def exc_name(e: BaseException) -> str:
     return type(e).__name__
 
 
+def seq_order(reqs: list, order: list) -> list:
+    """One-at-a-time order for C09: blocks in address order; inside a block by
+    descending (offset, registration id), which needs no re-anchoring because
+    the head of a split block keeps its identity and its offsets."""
+    regid = {ri: k for k, ri in enumerate(order)}
+    idx = list(range(len(reqs)))
+    idx.sort(key=lambda i: (reqs[i]["sec"], reqs[i]["blk"], -reqs[i]["off"], -regid[i]))
+    return idx
+
+
+def run_sequential(case: dict) -> dict:
+    """Applies the requests one at a time, each in its own RewritingContext."""
+    shape = case["shape"]
+    isa = shape.get("isa", "x64")
+    r = render(shape)
+    proj = Projector(r.module)
+    order = case.get("order") or list(range(len(case["reqs"])))
+    exc = ""
+    try:
+        for ri in seq_order(case["reqs"], order):
+            rq = case["reqs"][ri]
+            b = r.blocks[rq["sec"]][rq["blk"]]
+            ctx = RewritingContext(r.module, r.functions)
+            if rq["op"] in ("ins", "rep"):
+                ps = rq["patch"]
+                pobj = bytes(ps["bytes"]) if "bytes" in ps else make_patch(ps, isa)
+                if rq["op"] == "ins":
+                    ctx.insert_at(b, rq["off"], pobj)
+                else:
+                    ctx.replace_at(b, rq["off"], rq["len"], pobj)
+            else:
+                ctx.delete_at(b, rq["off"], rq["len"], retarget_to_proxy=bool(rq.get("proxy")))
+            ctx.apply()
+            # functions may have lost/gained blocks: rebuild the Function objects
+            r.functions = _rebuild_functions(r.module)
+    except BaseException as e:
+        exc = exc_name(e)
+        if os.environ.get("VERIF_DEBUG"):
+            traceback.print_exc()
+    return {"post": proj.project(), "exc": exc}
+
+
+def _rebuild_functions(module):
+    import gtirb_functions
+    return gtirb_functions.Function.build_functions(module)
+
+
 def run_case(case: dict, sink=None, sequential: bool = False) -> dict:
     """Executes one case.  case = {id, shape, reqs, order?}."""
     shape = case["shape"]
@@ -210,7 +257,25 @@ def run_case(case: dict, sink=None, sequential: bool = False) -> dict:
                 ctx.delete_at(b, rq["off"], rq["len"], retarget_to_proxy=rec["proxy"])
             trace_reqs.append(rec)
         stage = "apply"
-        ctx.apply()
+        observer = None
+        if case.get("observe"):
+            from gtirb_rewriting import _verif
+            from .observe import CacheObserver
+
+            def patch_syms(u, off):
+                out = []
+                for q in trace_reqs:
+                    if q["u"] == u and q["off"] == off and q["op"] in ("ins", "rep"):
+                        out.extend(x["tgb"] for x in q["patch"]["units"] if x["tgb"])
+                return [n for n in out if not n.startswith(".L")]
+
+            observer = CacheObserver(proj, r.module, patch_syms)
+            _verif.install(observer)
+        try:
+            ctx.apply()
+        finally:
+            if observer is not None:
+                _verif.install(None)
         stage = "done"
     except BaseException as e:  # observed, judged in TLA+
         exc = exc_name(e)
@@ -218,7 +283,14 @@ def run_case(case: dict, sink=None, sequential: bool = False) -> dict:
             traceback.print_exc()
     post = proj.project()
     whole = whole_ir_report(r.module, orig_cfg)
-    return {"id": case["id"], "pre": pre, "reqs": trace_reqs, "post": post,
+    extra = {}
+    if case.get("observe"):
+        extra["steps"] = observer.steps if observer is not None else []
+    if case.get("sequential"):
+        sq = run_sequential(case)
+        extra["post2"] = sq["post"]
+        extra["exc2"] = sq["exc"]
+    return {**extra, "id": case["id"], "pre": pre, "reqs": trace_reqs, "post": post,
             "exc": exc, "stage": stage, "nfun": len(r.functions),
             "isa": isa, "fmt": shape.get("fmt", "elf"), "whole": whole,
             "fault": int(case.get("fault", 0)), "ninv": len(ctxlog)}
